@@ -243,8 +243,8 @@ func (m *Model) trackKeyedInvoke(c *Call, cm *callM) {
 	if m.cBound == nil {
 		m.cBound, m.cDropped, m.cHome = map[string]bool{}, map[string]bool{}, map[string]int{}
 	}
-	if c.NoGCP || c.Stream || m.cfg.ambiguous[c.MethodName] || c.Age != 0 {
-		return
+	if c.NoGCP || m.cfg.ambiguous[c.MethodName] {
+		return // no key visible to the picker
 	}
 	mm, ok := m.cfg.methods[c.MethodName]
 	if !ok || (mm.cmd != cmdBound && mm.cmd != cmdUnbind) {
@@ -256,7 +256,12 @@ func (m *Model) trackKeyedInvoke(c *Call, cm *callM) {
 	}
 	k := keys[0]
 	if mm.cmd == cmdUnbind {
+		// any UNBIND call for the key (unary or stream path, any picker) may
+		// unbind it whenever it completes: the key is never judged again
 		m.cDropped[k] = true
+		return
+	}
+	if c.Stream || c.Age != 0 {
 		return
 	}
 	if m.cBound[k] && !m.cDropped[k] && m.allReady() {
